@@ -82,6 +82,12 @@ var gens = []generator{
 	{file: "GbReaderFns.lean", src: "seqio/genbank.go, genbank_subparsers.go, insdc.go, reference.go, strings.go, dictionary.go (the reader's plain computations)", run: genGbReaderFns},
 	{file: "GbReaderDispatch.lean", src: "seqio/genbank.go (tryAllParsers)", run: genGbReaderDispatch},
 	{file: "GbReaderFacts.lean", src: "seqio/genbank.go, genbank_subparsers.go, insdc.go, reference.go, utils.go (the reader's structure)", run: genGbReaderFacts},
+	{file: "GoStrings.lean", src: "(fixed prelude of the seqio writer translator: strings, slices, fmt verbs)", run: genGoStrings},
+	{file: "InsdcWrite.lean", src: "seqio/insdc.go (GetQualifierType, QualifierIO.String, QualifierFormatter.String, INSDCFormatter.String)", run: genInsdcWrite},
+	{file: "FastaWrite.lean", src: "seqio/fasta.go (Fasta.WriteTo, FastaWriter.WriteSeq)", run: genFastaWrite},
+	{file: "GbFields.lean", src: "seqio/genbank.go (GenBankFields.ID, GenBankFields.String)", run: genGbFields},
+	{file: "GenBankWrite.lean", src: "seqio/genbank.go (GenBank.String)", run: genGenBankWrite},
+	{file: "GbSlice.lean", src: "seqio/genbank.go (GenBankFields.Slice)", run: genGbSlice},
 }
 
 func writeIfChanged(path string, content []byte) (bool, error) {
